@@ -131,7 +131,14 @@ fn pex_case() -> impl Strategy<Value = ExecCase> {
             }
             _ => random,
         };
-        let mut c = ExecCase::simple(vec![PEX]);
+        // one or two look-ups in the same execution (the second one hits the lazily built cache)
+        let second = predicate_exists_hash(&sols[gen::pick_ix(pos, sols.len())]);
+        let mut prog = vec![PEX];
+        if mode % 2 == 1 {
+            prog.extend(bytes_to_words(&second).into_iter().map(PUSH));
+            prog.push(PEX);
+        }
+        let mut c = ExecCase::simple(prog);
         c.solutions = sols;
         c.index = ix;
         c.init.stack = vec![5];
